@@ -9,6 +9,7 @@ type Profile struct {
 	WatchersMin, WatchersMax   int
 	ConsumersMin, ConsumersMax int
 	Registrar                  bool
+	RegistrarOdds              int // the registrar takes part in one of this many runs (default 2)
 	Prober                     bool
 	Probes                     int
 	TxnsMin, TxnsMax           int
@@ -67,7 +68,9 @@ func profileFor(prop, tier string) *Profile {
 	}
 	switch prop {
 	case "C01":
+		p.Registrar, p.RegistrarOdds = true, 4
 		p.OpWeights[OpBurst] = 6
+		p.OpWeights[OpReadBack] = 14
 		p.ReadersMin, p.ReadersMax = 1, 3
 		p.RetainWeight = 4
 		p.ReadProp = "C04"
@@ -76,6 +79,7 @@ func profileFor(prop, tier string) *Profile {
 		p.ConsumersMax = 1
 		p.OpWeights[OpChanges] = 1
 	case "C02":
+		p.Registrar, p.RegistrarOdds = true, 3
 		p.TablesMin, p.TablesMax = 2, 4
 		p.MinTxnTables = 2
 		p.WritersMin, p.WritersMax = 1, 3
@@ -165,6 +169,7 @@ func profileFor(prop, tier string) *Profile {
 		p.TablesMax = 2
 	case "C09":
 		p.WritersMin, p.WritersMax = 1, 3
+		p.Registrar, p.RegistrarOdds = true, 3
 		p.OpWeights = weights(map[int]int{OpInsert: 25, OpModify: 12, OpDelete: 18, OpDeleteAll: 4, OpCAS: 12, OpCAD: 12, OpReadBack: 6, OpChanges: 1})
 		p.ReadersMin, p.ReadersMax = 1, 2
 		p.ConsumersMax = 1
